@@ -34,6 +34,11 @@ def check(chk, fx):
     lexrules.lenw(chk, fx)
     from .. import ownrules
     ownrules.bufref(chk, fx, 6)       # views into a copied buffer dangle
+    # the driver never consumes the <eof> term and leaves the discard loop at the end of input: rows of the driver's
+    # transition relation (C08) are necessary for "terminates, never reads outside the caller's buffer"
+    from . import c08
+    chk.rule("DRV", "rows of the driver's transition relation (modes x entry kind x exits)", 20)
+    c08.modes(chk, fx, c08.check_table(chk, fx, "DRV"))
     from .. import deporder, goldenreg as _gr
     deporder.group(chk, fx, "DEPORD", "dependence order of statements (lexer, matcher and driver)", sorted(set(_gr.DEP_GROUPS["LEX"] + _gr.DEP_GROUPS["DRV"])))
     from .. import width
